@@ -440,6 +440,11 @@ func runOne(work, path string) {
 		c := &CoordCase{}
 		_ = json.Unmarshal(raw, c)
 		gen.Emit(runCoord(c))
+	case "send":
+		c := &SendCase{}
+		_ = json.Unmarshal(raw, c)
+		runSendCase(work, c)
+		gen.Emit(c)
 	case "trunc":
 		c := &TruncCase{}
 		_ = json.Unmarshal(raw, c)
@@ -510,6 +515,16 @@ func main() {
 		gen.Emit(c)
 		return
 	}
+	if len(os.Args) >= 3 && os.Args[1] == "send" {
+		n, _ := strconv.Atoi(os.Args[2])
+		r := gen.FromEnv(56)
+		for i := 0; i < n; i++ {
+			c := genSend(r.Fork(), i)
+			runSendCase(work, c)
+			gen.Emit(c)
+		}
+		return
+	}
 	if len(os.Args) >= 3 && os.Args[1] == "trunc" {
 		n, _ := strconv.Atoi(os.Args[2])
 		emitTrunc(work, gen.FromEnv(55), n)
@@ -539,6 +554,11 @@ func main() {
 		gen.Emit(runCoord(genCoord(r.Fork())))
 	}
 	emitTrunc(work, r.Fork(), n/4+1)
+	for i := 0; i < 3+n/400; i++ {
+		c := genSend(r.Fork(), i)
+		runSendCase(work, c)
+		gen.Emit(c)
+	}
 	for i, c := range corpusConflict() {
 		runConflict(work, 200000+i, c)
 		gen.Emit(c)
